@@ -51,6 +51,8 @@ def key_name(td, a, f=None):
 def by_name(td, a):
     if td.keys == "distinct":
         return "by_" + a
+    if a == "partial_ord" and getattr(td, "nonreflexive", False):
+        return "ck_pcmp_nr"         # a NaN-like element: not even comparable with itself
     if a == "partial_ord" and "Ord" not in td.derived:
         return "ck_pcmp_p"          # incomparable pairs exist: `==` derived from it must be false there
     return {"ord": "ck_cmp", "partial_ord": "ck_pcmp", "eq": "ck_eq", "partial_eq": "ck_eq", "hash": "ck_hash"}[a]
@@ -133,7 +135,7 @@ def wrap(td, text):
     body = "".join(l + " " for l in text.split("\n") if l.strip())
     # one paragraph: the derive_ex item under a prelude-shadowing glob import; key/by functions and field types come from support
     return ("pub mod def { #[allow(unused_imports)] use super::shadow::*; #[allow(unused_imports)] use crate::support::hijack::HijackAll as _; use crate::support::{%s}; #[allow(unused_macros)] macro_rules! unreachable { (never) => {} }\n%s\n}\n\n%spub use def::%s as %s;\n" % (
-        ", ".join(["P", "W", "Kb"] + ["k_" + a for a in R.OPS] + ["by_" + a for a in R.OPS] + ["ck", "ck_cmp", "ck_pcmp", "ck_pcmp_p", "ck_eq", "ck_hash"]), body, SHADOW, td.hostile.get("type", td.tname), td.tname))
+        ", ".join(["P", "W", "Kb"] + ["k_" + a for a in R.OPS] + ["by_" + a for a in R.OPS] + ["ck", "ck_cmp", "ck_pcmp", "ck_pcmp_p", "ck_pcmp_nr", "ck_eq", "ck_hash"]), body, SHADOW, td.hostile.get("type", td.tname), td.tname))
 
 
 
@@ -395,6 +397,8 @@ def law_harnesses(td):
         r.append('        "law_%s" => { %s let ok = lw_%s(%s); (ok, format!("%s law `%s` holds = {:?}", %s, ok)) }' % (name, mk, name, call, fmtv, text, ", ".join("xyz"[:nvals])))
         h.append("law_" + name)
     if "PartialEq" in D and "PartialOrd" in D:
+        # the same law on ONE object (aliased operands): an identity shortcut in `==` must not disagree with partial_cmp
+        add("eq_pcmp_same", 1, "(x == x) == (PartialOrd::partial_cmp(x, x) == Some(Ordering::Equal))", "x == x iff partial_cmp(x, x) == Some(Equal)")
         add("eq_pcmp", 2, "(x == y) == (PartialOrd::partial_cmp(x, y) == Some(Ordering::Equal))", "a == b iff partial_cmp == Some(Equal)")
     if "PartialEq" in D and "Ord" in D:
         add("eq_cmp", 2, "(x == y) == (Ord::cmp(x, y) == Ordering::Equal)", "a == b iff cmp == Equal")
